@@ -4,6 +4,10 @@ import json, os
 ROOT = os.path.dirname(os.path.dirname(os.path.abspath(__file__)))
 
 CHECKS = {
+ 'C04': dict(level='exploration', design='DESIGN.md §5 C04',
+   technique='CrossHair symbolic execution of execute_script/_script_function: symbolic argument lists (symbolic length), host globals chosen by symbolic indices, symbolic presence flags for colliding names; oracle = the documented calling and scoping convention',
+   text='Per parameter layout (0-3 parameters, with and without a trailing "...") the real _script_function is called - directly, through systemPartial and through a script call - with an argument list whose length and values are symbolic, and compared with positional binding / missing->null / surplus ignored / rest collected, also when the host supplies globals named like the parameters. Per scoping program (one parameter, zero parameters, nested calls, arraySort callback) assignments inside functions must stay local, reads must see locals then globals, top-level assignments must write the caller-supplied dict; a collision condition covers library injection, script functions replacing library/host functions and bound names beating built-ins.',
+   note='Trusted: CrossHair/z3 list and dict models. Bounds: <= 3 parameters, <= 5 arguments, integer values.'),
  'C03': dict(level='exploration', design='DESIGN.md §5 C03',
    technique='CrossHair symbolic execution of evaluate_expression: typed symbolic operands per operand-kind pair against a written specification of the operator semantics; effect-logging leaves with symbolic values for order/once/laziness; alias table differential',
    text='Per ordered pair of operand kinds (unbounded ints, short strings, null, bools, and floats/datetimes/arrays/objects/functions/regexes chosen from pools by symbolic indices) all 14 binary and both unary operators are evaluated by the real evaluator and compared with the typed operator semantics written from the language description; per expression shape with effect-logging host calls as leaves the evaluation order, at-most-once evaluation and laziness of &&, || and if() are compared with a reference evaluation for all leaf values; every documented spreadsheet-style built-in is compared with the library function it aliases on symbolic arguments and must be undefined with built-ins off.',
